@@ -152,3 +152,17 @@ Proof. reflexivity. Qed.
 Lemma tie_footprint : forallb allowed_write G.global_writes = true.
 Proof. vm_compute. reflexivity. Qed.
 
+
+(* one level of aliasing: uses of a package-level slice/map/pointer, directly or through a local assigned from it,
+   from which the shared backing store could be written.  Today: the default cipher-suite list is aliased by
+   determineCipherSuite's parameter, which is only measured, ranged over and - when the CALLER supplied a single
+   suite - has the address of its element returned; the two DCMI entity lists are handed to getSensorMap, which
+   only ranges over them.  A new row (a call that receives the alias, an append, a store) is a change to look at. *)
+Definition expected_aliases : list (string * string * string * string) := [
+  ("bmc", "defaultCipherSuites", "V2SessionlessTransport.determineCipherSuite", "addr");
+  ("bmc", "defaultCipherSuites", "V2SessionlessTransport.determineCipherSuite", "alias");
+  ("dcmi", "dcmiSensorEntityIDs", "GetSensorInfo", "arg:getSensorMap");
+  ("dcmi", "ipmiSensorEntityIDs", "GetSensorInfo", "arg:getSensorMap")
+]%string.
+Lemma tie_aliases : G.global_aliases = expected_aliases.
+Proof. reflexivity. Qed.
